@@ -145,6 +145,28 @@ def run(ctx):
                 gen_fail += 1
                 continue
             exprs.append(('enum', e, variant))
+    # 1b. a quantifier in every kind of child position of another node: the domain of a quantifier (through a set member), a set
+    #     member, a range bound (through `len`), a function argument, an operand, an index
+    YS = ('field', ('this',), 'ys')
+    inner = lambda q, v: ('quant', q, v, YS, ('bin', '>', ('var', v), int_lit(0)))
+    for q in ('all', 'some'):
+        for v in ('j', 'a', 'i2'):
+            qq = inner(q, v)
+            nested = [
+                ('quant', 'all', 'i', ('set', [qq, ('field', ('this',), 'b')]), ('var', 'i')),
+                ('quant', 'some', 'i', ('set', [('field', ('this',), 'b'), qq]), ('un', 'not', ('var', 'i'))),
+                ('bin', 'in', ('field', ('this',), 'b'), ('set', [qq])),
+                ('call', 'bool', [qq]),
+                ('bin', '=', qq, ('field', ('this',), 'b')),
+                ('bin', '>', ('index', ('field', ('this',), 'xs'), ('call', 'int', [qq])), int_lit(0)),
+                ('quant', 'all', 'i', ('range', int_lit(0), ('call', 'int', [qq]), False, False), ('bin', '>', ('var', 'i'), int_lit(0))),
+                ('un', 'not', qq), ('bin', 'implies', qq, ('un', 'not', qq)),
+            ]
+            for r in nested:
+                try:
+                    exprs.append(('nested-quantifier', build_api(r), r))
+                except Exception:
+                    gen_fail += 1
     n_enum = len(exprs)
     # 2. random trees through the parser
     from hpl.parser import expression_parser, property_parser
